@@ -56,7 +56,8 @@ def search(_payload):
                         return {'found': True, 'input': f'getLengthInches(width={text!r})', 'observed': repr(gi), 'expected': repr(float(val * FACT[u] / 96))}
                 except Exception as e:     # noqa
                     return {'found': True, 'input': text, 'observed': f'raised {type(e).__name__}: {e}', 'expected': 'a value'}
-    for text in ('5em', '2ex', 'px', 'abc', '', 'mm', '%', None):
+    for text in ('5em', '2ex', 'px', 'abc', '', 'mm', '%', None, '50%%', '7%px%', '3%em', '3mmm', '5ppx', '7nin', '2ccm', '9QQ', '5 mm x', '1,5mm', '--3px', '3..5in',
+                 ' ', '\t', 'e5mm', '.mm'):
         try:
             got = pu.parseLengthWithUnits(text)
             if got != (None, None):
@@ -65,6 +66,12 @@ def search(_payload):
                 return {'found': True, 'input': f'unitsToUserUnits({text!r})', 'observed': 'a value', 'expected': 'None'}
         except Exception as e:     # noqa
             return {'found': True, 'input': repr(text), 'observed': f'raised {type(e).__name__}: {e}', 'expected': 'None'}
+    # call history: the same text against different reference lengths (no result may be remembered per text)
+    for ref in (200, 400, 50, None, 200):
+        got = pu.unitsToUserUnits('50%', ref) if ref is not None else pu.unitsToUserUnits('50%')
+        want = 0.5 * ref if ref is not None else 0.5
+        if got is None or not close(got, F(want)):
+            return {'found': True, 'input': f"unitsToUserUnits('50%', {ref}) after calls with other references", 'observed': repr(got), 'expected': repr(want)}
     if pu.PX_PER_INCH != 96:
         return {'found': True, 'input': 'PX_PER_INCH', 'observed': repr(pu.PX_PER_INCH), 'expected': '96'}
     return {'found': False}
